@@ -1,14 +1,18 @@
+import OntVerif.Model.Token
 /-!
 # Model of `HandleInvokeTransaction` (core/store/ledgerstore/tx_handler.go) — property C05
 
-What is mirrored, statement by statement, in `UInt64` (Go `uint64`: `+ - *` wrap, `/` truncates, `/ 0` panics):
+What is mirrored, statement by statement, in `UInt64` (Go `uint64`: `+ - *` wrap, `/` truncates):
 
 * `HandleInvokeTransaction`: `isCharge`, `minGas`, `codeLenGasLimit*GasPrice`, `GasLimit < codeLenGasLimit`,
   `oldBalance / GasPrice`, `availableGasLimit - codeLenGasLimit`, `availableGasLimit - sc.Gas`, the `MIN_TRANSACTION_GAS`
   floor, `costGasLimit * GasPrice`, the three `tuneGasFeeByHeight` call sites (with `oldBalance` / `newBalance`);
-* `tuneGasFeeByHeight`, `calcGasByCodeLen`, `costInvalidGas` (fresh cache on the block overlay), `chargeCostGas`
-  (fee transfer on the transaction cache), the ONG `transfer` of one state (`doTransfer`/`ont.Transfer`: zero amount
-  skipped, amount over total supply rejected, witness check, balance check, debit written then credit re-read);
+* `tuneGasFeeByHeight` (as repaired: `gasRound == 0` guard), `calcGasByCodeLen`, `costInvalidGas` (fresh cache on the
+  block overlay), `chargeCostGas` (fee transfer on the transaction cache);
+* the ONG `transfer` of the fee is NOT re-modelled here: it is the call `transfer [{payer, governance, v}]` of the
+  token model of C06 (`Model/Token.lean`: `exec` = `doTransfer`/`ont.Transfer`/`reduceFromBalance`/`increaseToBalance`,
+  including the Go panic of `MustToStorageItem` on a whole balance ≥ 2^64 units), in the environment `chargeCostGas`
+  builds (a fresh `SmartContract`: no calling context; signature addresses of the transaction);
 * `executeBlock`: the transaction cache is empty when a transaction starts (`cache.Reset()`), so reads go to the overlay;
   a cache that is not committed never reaches the overlay.
 
@@ -17,21 +21,25 @@ internal-error flag, the state as seen through the transaction cache after the r
 
 Balances are ONG storage items with 1e-18 precision (`Nat`); the fee logic sees them through `balanceOf`
 (`⌊b / 1e9⌋` truncated to `uint64`), the transfer moves `v·1e9`.
+
+`Variant`: the recorded defect of the unchanged tree is the underflow of `availableGasLimit - codeLenGasLimit` when
+`codeLenGasLimit*GasPrice` wrapped (the VM is started with ≈ 2^64 gas); `.sound` has the proposed guard
+(fixes/C05-gaslimit-underflow.patch).
 -/
 namespace OntVerif.Model.InvokeFee
 
 abbrev Addr := Nat
 
-/-- 1e9: one fee unit (1e-9 ONG) in storage precision (1e-18 ONG) — `states.NativeTokenBalanceFromInteger` -/
-def unit : Nat := 1000000000
+/-- 1e9: one fee unit (1e-9 ONG) in storage precision (1e-18 ONG) — `states.ScaleFactor`, regenerated from the source -/
+def unit : Nat := OntVerif.Model.Token.SF
 /-- `constants.ONG_TOTAL_SUPPLY_V2` = 10^27 -/
-def totalSupplyV2 : Nat := 1000000000000000000000000000
+def totalSupplyV2 : Nat := OntVerif.Gen.Token.ONG_TOTAL_SUPPLY_V2
 /-- `neovm.MIN_TRANSACTION_GAS` -/
 def minTxGas : UInt64 := 20000
 /-- `neovm.PER_UNIT_CODE_LEN` -/
 def perUnitCodeLen : Nat := 1024
 
-/-- the recorded defect (division by zero in `tuneGasFeeByHeight` when `GasPrice*20000` wraps to 0): as shipped / repaired -/
+/-- as shipped: `sc.Gas = availableGasLimit - codeLenGasLimit` may underflow; sound: guarded -/
 inductive Variant | asShipped | sound
   deriving DecidableEq, Repr
 
@@ -52,7 +60,7 @@ structure Tx where
   gasLimit : UInt64
   codeLen : Nat           -- `len(invoke.Code)`
   payer : Addr
-  payerWitness : Bool     -- `CheckWitness(payer)` under this transaction (payer among the signature addresses)
+  payerWitness : Bool     -- payer among the signature addresses of the transaction
 
 /-- What the VM did (input). `st` = the state read through the transaction cache after the run. -/
 structure ExecOutcome (σ : Type) where
@@ -73,55 +81,78 @@ structure Notify where
 
 inductive Res (σ : Type)
   | blockError                       -- `overlay.SetError`: executeBlock returns an error, the block is not applied
-  | panic                            -- Go runtime panic (integer divide by zero)
+  | panic                            -- Go runtime panic
   | done (ov : Overlay σ) (n : Notify)
-
-def upd (f : Addr → Nat) (a : Addr) (v : Nat) : Addr → Nat := fun x => if x = a then v else f x
 
 /-- `balanceOf` as the fee logic reads it: `common.BigIntFromNeoBytes(result).Uint64()` of `⌊b/1e9⌋` -/
 def balUnits (b : Nat) : UInt64 := UInt64.ofNat (b / unit)
 
-/-- ONG `transfer` of the single state `{payer, gov, v}` on a balance view; `none` = the native call returned an error -/
-def feeTransfer (view : Addr → Nat) (payer gov : Addr) (witness : Bool) (v : UInt64) : Option (Addr → Nat) :=
-  if v = 0 then some view                                   -- `if v.Value.IsZero() { continue }`
-  else if totalSupplyV2 < v.toNat * unit then none          -- over total supply
-  else if !witness then none                                -- `authentication failed!`
-  else if view payer < v.toNat * unit then none             -- `balance insufficient`
-  else
-    let v1 := upd view payer (view payer - v.toNat * unit)  -- reduceFromBalance
-    some (upd v1 gov (v1 gov + v.toNat * unit))             -- increaseToBalance (re-reads through the cache)
+/-- the environment of the native call issued by `chargeCostGas`: a fresh `SmartContract` (no calling context), the
+transaction's signature addresses (only membership of the payer matters), ONG total supply; the ONT-only fields are
+never read by an ONG transfer -/
+def feeEnv (payer : Addr) (witness : Bool) : OntVerif.Model.Token.Env :=
+  { signers := if witness then [payer] else [], caller := none, time := 0, preExec := false, genesis := 0, D := 0,
+    ontAddr := 0, govAddr := 0, ontSupply := 0, ongSupply := totalSupplyV2, calcOng := fun _ _ _ => none }
+
+/-- a token state whose ONG balances are `view` -/
+def tokSt (view : Addr → Nat) : OntVerif.Model.Token.St :=
+  ⟨⟨fun _ => 0, fun _ _ => 0⟩, ⟨view, fun _ _ => 0⟩, fun _ => 0⟩
+
+inductive FeeRes
+  | ok (view : Addr → Nat)     -- the native call returned without error; balances as the cache now shows them
+  | rejected                   -- the native call returned an error
+  | panic                      -- Go panic inside the token contract
+
+/-- `chargeCostGas`: ONG `transfer` of the single state `{payer, gov, v}` (version-1 amount: `v·1e9` base units) -/
+def feeTransfer (view : Addr → Nat) (payer gov : Addr) (witness : Bool) (v : UInt64) : FeeRes :=
+  match OntVerif.Model.Token.exec (feeEnv payer witness) (tokSt view)
+      (.transfer .ong [⟨payer, gov, v.toNat * unit⟩]) with
+  | (.ok, s') => .ok s'.ong.bal
+  | (.retFalse, _) => .rejected
+  | (.err .panic, _) => .panic
+  | (.err _, _) => .rejected
 
 def calcGasByCodeLen (codeLen : Nat) (codeGas : UInt64) : UInt64 :=
   UInt64.ofNat (codeLen / perUnitCodeLen) * codeGas
 
 def maxU64 : UInt64 := 18446744073709551615
 
-/-- `tuneGasFeeByHeight`; `none` = integer divide by zero -/
-def tune (v : Variant) (tuned : Bool) (gas gasRound curBalance : UInt64) : Option UInt64 :=
+/-- `tuneGasFeeByHeight` -/
+def tune (tuned : Bool) (gas gasRound curBalance : UInt64) : UInt64 :=
   if tuned then
-    if gasRound = 0 then
-      match v with
-      | .asShipped => none                                   -- `t := (gas + gasRound - 1) / gasRound`
-      | .sound => some (if gas > curBalance then curBalance else gas)
+    if gasRound = 0 then (if gas > curBalance then curBalance else gas)
     else
       let t := (gas + gasRound - 1) / gasRound
-      if gas > maxU64 - gasRound then some curBalance
+      if gas > maxU64 - gasRound then curBalance
       else
         let newGas := gasRound * t
-        if newGas > curBalance then some curBalance else some newGas
-  else some gas
+        if newGas > curBalance then curBalance else newGas
+  else gas
 
 /-- `costInvalidGas`: fee transfer through a fresh cache on the overlay; on error nothing is committed and the
 notify is left as initialised by `handleTransaction` (FAIL, 0). -/
 def costInvalid {σ} (env : Env) (ov : Overlay σ) (tx : Tx) (gas : UInt64) : Res σ :=
   match feeTransfer ov.bal tx.payer env.gov tx.payerWitness gas with
-  | none => .done ov ⟨.fail, 0, 0⟩
-  | some b => .done { ov with bal := b } ⟨.fail, gas, if gas = 0 then 0 else 1⟩
+  | .rejected => .done ov ⟨.fail, 0, 0⟩
+  | .panic => .panic
+  | .ok b => .done { ov with bal := b } ⟨.fail, gas, if gas = 0 then 0 else 1⟩
 
 def isCharge (env : Env) (tx : Tx) : Bool := !env.sysTx && tx.gasPrice != 0
 
+/-- `availableGasLimit` after the cap by `oldBalance / GasPrice` -/
+def availOf (tx : Tx) (oldBalance : UInt64) : UInt64 :=
+  let maxAva := oldBalance / tx.gasPrice
+  if tx.gasLimit > maxAva then maxAva else tx.gasLimit
+
+/-- the proposed guard: the capped limit does not even cover the code-length gas (only possible when
+`codeLenGasLimit*GasPrice` wrapped) -/
+def underflows (v : Variant) (avail codeLenGasLimit : UInt64) : Bool :=
+  match v with
+  | .asShipped => false
+  | .sound => decide (avail < codeLenGasLimit)
+
 /-- the gas the VM is started with (`sc.Gas`), `none` when the transaction is rejected before the VM runs -/
-def gasGiven {σ} (env : Env) (ov : Overlay σ) (tx : Tx) : Option UInt64 :=
+def gasGiven {σ} (v : Variant) (env : Env) (ov : Overlay σ) (tx : Tx) : Option UInt64 :=
   if isCharge env tx then
     if !env.gasTableOk then none else
     let oldBalance := balUnits (ov.bal tx.payer)
@@ -129,8 +160,8 @@ def gasGiven {σ} (env : Env) (ov : Overlay σ) (tx : Tx) : Option UInt64 :=
     let codeLenGasLimit := calcGasByCodeLen tx.codeLen env.uintCodeGas
     if oldBalance < codeLenGasLimit * tx.gasPrice then none else
     if tx.gasLimit < codeLenGasLimit then none else
-    let maxAva := oldBalance / tx.gasPrice
-    some ((if tx.gasLimit > maxAva then maxAva else tx.gasLimit) - codeLenGasLimit)
+    if underflows v (availOf tx oldBalance) codeLenGasLimit then none else
+    some (availOf tx oldBalance - codeLenGasLimit)
   else some tx.gasLimit
 
 /-- `costGasLimit * tx.GasPrice` with `costGasLimit = max(availableGasLimit - sc.Gas, MIN_TRANSACTION_GAS)` -/
@@ -139,32 +170,29 @@ def costGasOf (availableGasLimit gasLeft gasPrice : UInt64) : UInt64 :=
   (if used < minTxGas then minTxGas else used) * gasPrice
 
 /-- `costGas = tuneGasFeeByHeight(..., oldBalance); costInvalidGas(payer, costGas, ...)` -/
-def tunedInvalid {σ} (v : Variant) (env : Env) (ov : Overlay σ) (tx : Tx) (costGas cur : UInt64) : Res σ :=
-  match tune v env.tuned costGas (tx.gasPrice * minTxGas) cur with
-  | none => .panic
-  | some g => costInvalid env ov tx g
+def tunedInvalid {σ} (env : Env) (ov : Overlay σ) (tx : Tx) (costGas cur : UInt64) : Res σ :=
+  costInvalid env ov tx (tune env.tuned costGas (tx.gasPrice * minTxGas) cur)
 
 /-- success path with charging: `tune` against the balance after execution, `chargeCostGas` on the transaction cache, `Commit` -/
-def chargeAndCommit {σ} (v : Variant) (env : Env) (ov : Overlay σ) (tx : Tx) (out : ExecOutcome σ) (costGas newBalance : UInt64) : Res σ :=
-  match tune v env.tuned costGas (tx.gasPrice * minTxGas) newBalance with
-  | none => .panic
-  | some g =>
-    match feeTransfer out.st.bal tx.payer env.gov tx.payerWitness g with
-    | none => .done ov ⟨.fail, 0, 0⟩                   -- `return nil, err` before Commit
-    | some b => .done ⟨b, out.st.rest⟩ ⟨.success, g, out.notifs + (if g = 0 then 0 else 1)⟩
+def chargeAndCommit {σ} (env : Env) (ov : Overlay σ) (tx : Tx) (out : ExecOutcome σ) (costGas newBalance : UInt64) : Res σ :=
+  let g := tune env.tuned costGas (tx.gasPrice * minTxGas) newBalance
+  match feeTransfer out.st.bal tx.payer env.gov tx.payerWitness g with
+  | .rejected => .done ov ⟨.fail, 0, 0⟩                   -- `return nil, err` before Commit
+  | .panic => .panic
+  | .ok b => .done ⟨b, out.st.rest⟩ ⟨.success, g, out.notifs + (if g = 0 then 0 else 1)⟩
 
 /-- the part of `HandleInvokeTransaction` after `engine.Invoke()` -/
-def afterExec {σ} (v : Variant) (env : Env) (ov : Overlay σ) (tx : Tx) (out : ExecOutcome σ)
+def afterExec {σ} (env : Env) (ov : Overlay σ) (tx : Tx) (out : ExecOutcome σ)
     (oldBalance availableGasLimit : UInt64) : Res σ :=
   if out.internalErr then .blockError else
   if !out.ok then
-    if isCharge env tx then tunedInvalid v env ov tx (costGasOf availableGasLimit out.gasLeft tx.gasPrice) oldBalance
+    if isCharge env tx then tunedInvalid env ov tx (costGasOf availableGasLimit out.gasLeft tx.gasPrice) oldBalance
     else .done ov ⟨.fail, 0, 0⟩
   else if isCharge env tx then
     if balUnits (out.st.bal tx.payer) < costGasOf availableGasLimit out.gasLeft tx.gasPrice then
-      tunedInvalid v env ov tx (costGasOf availableGasLimit out.gasLeft tx.gasPrice) oldBalance
+      tunedInvalid env ov tx (costGasOf availableGasLimit out.gasLeft tx.gasPrice) oldBalance
     else
-      chargeAndCommit v env ov tx out (costGasOf availableGasLimit out.gasLeft tx.gasPrice) (balUnits (out.st.bal tx.payer))
+      chargeAndCommit env ov tx out (costGasOf availableGasLimit out.gasLeft tx.gasPrice) (balUnits (out.st.bal tx.payer))
   else .done out.st ⟨.success, costGasOf availableGasLimit out.gasLeft tx.gasPrice, out.notifs⟩
 
 /-- `HandleInvokeTransaction` on an empty transaction cache over overlay `ov` -/
@@ -176,9 +204,9 @@ def invoke {σ} (v : Variant) (env : Env) (ov : Overlay σ) (tx : Tx) (out : Exe
     let codeLenGasLimit := calcGasByCodeLen tx.codeLen env.uintCodeGas
     if oldBalance < codeLenGasLimit * tx.gasPrice then costInvalid env ov tx oldBalance else
     if tx.gasLimit < codeLenGasLimit then costInvalid env ov tx (tx.gasLimit * tx.gasPrice) else
-    let maxAva := oldBalance / tx.gasPrice
-    afterExec v env ov tx out oldBalance (if tx.gasLimit > maxAva then maxAva else tx.gasLimit)
-  else afterExec v env ov tx out 0 tx.gasLimit
+    if underflows v (availOf tx oldBalance) codeLenGasLimit then costInvalid env ov tx oldBalance else
+    afterExec env ov tx out oldBalance (availOf tx oldBalance)
+  else afterExec env ov tx out 0 tx.gasLimit
 
 /-- observable summary of a result (used by the driver and by the `example`s): state, gas consumed, events,
 payer balance, governance balance, rest -/
